@@ -14,7 +14,7 @@ from checks.common.cases import explore_cases
 PROP = 'C08'
 LEVEL = 'exploration'
 SHARDS = {'quick': 4, 'thorough': 16}
-BUDGET_S = {'quick': 40, 'thorough': 400}
+BUDGET_S = {'quick': 150, 'thorough': 400}
 RULE = ('random object graphs over dict/list/tuple/set/frozenset (hashability respected), depth <= 6 (9 in '
         'thorough), empty containers, deliberate aliasing (same child under several parents, at different '
         'depths) and back-edges (cycles); visit programs from a decision-list DSL over (len(path), key, '
@@ -437,7 +437,7 @@ def shrink(case, fails):
 
 
 def run(ctx):
-    n = {'quick': 12000, 'thorough': 450000}[ctx.tier]
+    n = {'quick': 15000, 'thorough': 450000}[ctx.tier]
     if ctx.thorough:
         explore_cases(ctx, lambda r: gen(r, 25, 9), check, n // 3, 'deep', shrink)
     explore_cases(ctx, gen, check, n, 'remap', shrink)
